@@ -7,14 +7,15 @@
        if translator is not None:
            for key, val in translator.fixed_param_values.items():
                if val != new_vars[key]:
-                   del database._translator_cache[query_key]                 -- del   (KeyError if another thread deleted it)
+                   database._translator_cache.pop(query_key, None)           -- del   (tolerant; was `del cache[key]`: KeyError if another thread deleted it)
                    return None, ...
        ...
        translator = translate(...)                                            -- thread-local
        database._translator_cache[query_key] = translator                    -- set
 
-   A translator is represented by the parameter value it was built for.  `safe = true` is the proposed repair
-   (`pop(query_key, None)` instead of `del`). *)
+   A translator is represented by the parameter value it was built for.  `safe = true` is the code as it is
+   (`pop(query_key, None)`, repo commit e8266c3); `safe = false` is the former `del cache[key]`, kept to state what the
+   repair removed. *)
 From Coq Require Import List Bool Arith.
 Import ListNotations.
 Require Import PonyV.Model.C22Memo.
